@@ -36,6 +36,7 @@ pub struct SynB {}
 #[unit(Ab_Plain, "pAB", 12)]
 #[unit(Ab_Half, "hAB", 0.5)]
 #[unit(Ab_Deca, "daAB", DECA, 10)]
+#[unit(Ab_Tebi, "TiAB", TERA, 1099511627776)]
 pub struct SynAB {}
 
 #[quantity(SynA / SynB)]
